@@ -32,7 +32,11 @@ func c08Ident(name string, n int) string {
 // c08Path builds a path of 1..maxElems elements with symbolic identifier names, each
 // with 0..maxKeys keys whose names are identifiers and whose values are arbitrary
 // non-empty valid-UTF-8 strings of up to maxVal bytes.
-func c08Path(tag string, maxElems, maxKeys, maxVal int) *gnmipb.Path {
+//
+// It also returns the known-finding region predicate over the key values:
+// back: some value contains a backslash.
+func c08Path(tag string, maxElems, maxKeys, maxVal int) (*gnmipb.Path, bool) {
+	back := false
 	p := &gnmipb.Path{}
 	n := 1 + symChoose(tag+".elems", maxElems)
 	for i := 0; i < n; i++ {
@@ -54,10 +58,14 @@ func c08Path(tag string, maxElems, maxKeys, maxVal int) *gnmipb.Path {
 			symAssume(len(v) > 0)
 			symAssume(utf8.ValidString(v))
 			e.Key[kn] = v
+			back = symOr(back, symContains(v, "\\"))
+		}
+		if len(e.Key) > 1 {
+			symMapOrder(e.Key) // every iteration order of the key map
 		}
 		p.Elem = append(p.Elem, e)
 	}
-	return p
+	return p, back
 }
 
 func c08ElemsEqual(a, b *gnmipb.Path) bool {
@@ -88,9 +96,27 @@ func c08Bounds() (int, int, int) {
 // H_C08_roundtrip: StringToStructuredPath(PathToString(p)) == p.
 //
 //gosym:maxpaths=300000
+//gosym:replay_repeat=60
 func H_C08_roundtrip() {
 	me, mk, mv := c08Bounds()
-	p := c08Path("p", me, mk, mv)
+	p, back := c08Path("p", me, mk, mv)
+	symKnown("C08-backslash", back)
+	s, err := PathToString(p)
+	symAssert(err == nil, "PathToString fails on a valid path")
+	q, err := StringToStructuredPath(s)
+	symReach("parsed")
+	symAssert(err == nil, "StringToStructuredPath rejects PathToString output")
+	symAssert(c08ElemsEqual(p, q), "round trip changes the path")
+}
+
+// H_C08_twokeys: one element with up to two keys (every map iteration order),
+// values of 1..2 bytes.
+//
+//gosym:maxpaths=300000
+//gosym:replay_repeat=60
+func H_C08_twokeys() {
+	p, back := c08Path("p", 1, 2, 2)
+	symKnown("C08-backslash", back)
 	s, err := PathToString(p)
 	symAssert(err == nil, "PathToString fails on a valid path")
 	q, err := StringToStructuredPath(s)
@@ -103,9 +129,11 @@ func H_C08_roundtrip() {
 // PathToStrings(StringToStringSlicePath(PathToString(p))) == PathToStrings(p).
 //
 //gosym:maxpaths=300000
+//gosym:replay_repeat=60
 func H_C08_slice() {
 	me, mk, mv := c08Bounds()
-	p := c08Path("p", me, mk, mv)
+	p, back := c08Path("p", me, mk, mv)
+	symKnown("C08-backslash", back)
 	want, err := PathToStrings(p)
 	symAssert(err == nil, "PathToStrings fails on a valid path")
 	s, _ := PathToString(p)
